@@ -614,6 +614,26 @@ def sub_interp_extra(ctx):
                               {"sub": "interp-linear", "grid": gname})
 
 
+def sub_homogeneity(ctx):
+    """interpolate(q, s v) = s interpolate(q, v) for the cubic, linear and nearest methods (values of size 1e-18 and 1e15)."""
+    g = _interp_grids()["uniform"]
+    rng = np.random.default_rng([ctx.seed, 132])
+    x, y, z = g.get_points_along_axes()
+    q = np.stack([rng.uniform(a[1], a[-3], 3) for a in (x, y, z)], axis=1)
+    v = np.cos(g.points[:, 0] + 0.5 * g.points[:, 2]) * np.exp(-g.points[:, 1] ** 2) + 0.3 * g.points[:, 2] * g.points[:, 0]
+    for nm, kw in (("cubic", {}), ("cubic-nu", {"nu_x": 1, "nu_z": 1}), ("linear", {"method": "linear"}), ("nearest", {"method": "nearest"})):
+        with warnings.catch_warnings():
+            warnings.simplefilter("ignore")
+            base = np.asarray(g.interpolate(q, v, **kw), dtype=float)
+            for sfac in (1e-18, 1e15):
+                ctx.count(section="interp-homogeneity")
+                got = np.asarray(g.interpolate(q, sfac * v, **kw), dtype=float) / sfac
+                ctx.nontrivial(("hom", nm, sfac), section="interp-homogeneity")
+                if got.shape != base.shape or _gt(np.max(np.abs(got - base)), 1e-11 * (np.max(np.abs(base)) + 1e-300)):
+                    ctx.violation(f"interp:{nm}:not-linear-in-the-values", f"interpolate of {sfac:g} v is not {sfac:g} times that of v",
+                                  {"sub": "homogeneity"})
+
+
 def sub_refill(ctx):
     """One grid instance; the value array and the point array are refilled in place between two interpolate calls."""
     g = _interp_grids()["uniform"]
@@ -632,7 +652,7 @@ def sub_refill(ctx):
 SUBS = {
     "index": sub_index_maps, "layout": sub_layout, "weights": sub_weights, "from_molecule": sub_from_molecule,
     "from_molecule_weights": sub_from_molecule_weights,
-    "closest": sub_closest, "cube": sub_cube, "interp-extra": sub_interp_extra, "refill": sub_refill,
+    "closest": sub_closest, "cube": sub_cube, "interp-extra": sub_interp_extra, "refill": sub_refill, "homogeneity": sub_homogeneity,
 }
 
 
